@@ -1176,7 +1176,9 @@ def run_cascade_stream(run, name, docs, thorough):
                          {'stream': name, 'case': c, 'expected_fetches': exp_fetch, 'fetched': got_fetch,
                           'doc': slim(d)}, signature='c06-import-fetch-sequence')
             for e in d['els']:
-                if (e['n'], '') in obs:
+                # elements on which at least two sheet rules or a rule and an attribute compete
+                ncand = sum(1 for _, _, entries in ref['sheets'] for en in entries if e['n'] in en[3]) + bool(e['style'])
+                if (e['n'], '') in obs and ncand >= 2:
                     import_cases.append(coq_import_case(d, ref, e, obs[(e['n'], '')]))
                     import_kept.append((d, c, e['n']))
         for e in d['els']:
@@ -1211,7 +1213,7 @@ def run_cascade_stream(run, name, docs, thorough):
     if import_cases:
         try:
             masks = common.eval_cases('c06' + name.replace('-', '') + 'imp', PRE,
-                                      'icase', import_cases, 'judge_imports', per_file=100)
+                                      'icase', import_cases, 'judge_imports', per_file=60)
             mism = [k for k, m in zip(import_kept, masks) if m & 1]
             specbad = [k for k, m in zip(import_kept, masks) if m & 2]
             run.oblige('corr:%s(Coq model of the @import walk + cascade vs styles)' % name, not mism,
@@ -1639,7 +1641,7 @@ def judge_values(nodes, obs):
 
 
 def run_values_render(run, rng, thorough):
-    docs = [gen_values_doc(rng) for _ in range(2500 if thorough else 200)]
+    docs = [gen_values_doc(rng) for _ in range(2500 if thorough else 160)]
     cases = [values_case(nodes, via_rules=(i % 3 == 0)) for i, nodes in enumerate(docs)]
     outs = common.run_impl('impl_c06', 'render_styles', cases, limit=60)
     coq_all, n_el, keys = [], 0, []
@@ -1764,7 +1766,7 @@ def page_flatten(items, device):
 
 
 def run_page_render(run, rng, thorough):
-    docs = [gen_page_doc(rng) for _ in range(1200 if thorough else 150)]
+    docs = [gen_page_doc(rng) for _ in range(1200 if thorough else 100)]
     cases = []
     for d in docs:
         files, counter, user, ua, head, li = {}, [0], [], UA_BASE, '', 0
@@ -1895,7 +1897,7 @@ def check(run):
     lap('values-direct')
     # ---- random documents
     attr_case = finding_listed('c06-stylesheet-attr-case')
-    docs = [gen_doc(rng, attr_case) for _ in range(4000 if thorough else 420)]
+    docs = [gen_doc(rng, attr_case) for _ in range(4000 if thorough else 360)]
     run_cascade_stream(run, 'cascade-render', docs, thorough)
     lap('cascade-render')
     run.stream_info('cascade-render', rule='random DOM (<= 12 elements) x 1..8 rules over UA / user / author (<style> in '
@@ -1912,7 +1914,7 @@ def check(run):
                 tdocs.append(tuple_doc((a, b), tgt, layout))
     triples = list(itertools.product(K, K, K))
     if not thorough:
-        triples = rng.sample(triples, 1000)
+        triples = rng.sample(triples, 700)
     for i, t in enumerate(triples):
         tdocs.append(tuple_doc(t, 'div' if i % 2 else 'p', (i // 2) % 2))
         tdocs[-1]['render'] = thorough      # quick tier: triples are judged on the renderer's style function only
@@ -1924,7 +1926,7 @@ def check(run):
     lap('values-render')
     run_page_render(run, rng, thorough)
     lap('page-render')
-    idocs = [gen_import_doc(rng) for _ in range(1500 if thorough else 260)]
+    idocs = [gen_import_doc(rng) for _ in range(1500 if thorough else 200)]
     run_cascade_stream(run, 'import-dag', idocs, thorough)
     lap('import-dag')
     run.stream_info('import-dag', rule='2..5 served sheets forming an @import DAG of depth <= 3 (repeated URLs: u .. u in one '
@@ -1938,7 +1940,7 @@ def check(run):
                     rule='all ordered pairs (x 2 targets x 2 sheet layouts) and %s ordered triples of %d declaration '
                     'kinds (origin x container x selector specificity x importance, style attribute, presentational '
                     'hint as attribute or hints sheet) for text-align on one element' %
-                    ('all' if thorough else 'a seeded sample of 1000 of the 5832', len(KINDS)))
+                    ('all' if thorough else 'a seeded sample of 700 of the 5832', len(KINDS)))
 
 
 def replay(data):
